@@ -123,7 +123,7 @@ def check_C04(F, tier, t0):
     R.count('mk_choice-call-sites', static_mk_choice_sites(F.lib(), fns))
     # language level: the four quantifier keywords, the parser's Quantifier constructor, the evaluator's and the substitution's Quantifier arm
     guarded(R, 'T tokens', engine_t.rule_tokens, F, R, {'Exists', 'Forall'})
-    guarded(R, 'A3 (Quantifier constructor)', a3_filtered, F, R, 'Quantifier', 'A3:quantifier-constructor')
+    guarded(R, 'A3 (Quantifier constructor)', a3_filtered, F, R, ('Quantifier', 'parse_variable_list'), 'A3:quantifier-constructor')
     guarded(R, 'A2 (quantifier syntax)', a2_filtered, F, R, ('Exists', 'Forall'), 'A2:quantifier-syntax')
     guarded(R, 'S eval_recursive (Quantifier arm)', arm_obligations, R, E, EVF, ('Quantifier',), 'evaluator-quantifier-obligations')
     guarded(R, 'S replace_var (Quantifier arm)', arm_obligations, R, E, RVF, ('Quantifier',), 'substitution-quantifier-obligations')
@@ -263,7 +263,8 @@ def a3_filtered(F, R, needle, counter):
     """constructor provenance (A3) restricted to one syntax constructor"""
     sub = Report('A3')
     engine_a.rule_A3(F, sub)
-    hits = [v for v in sub.violations if needle in v.key or needle in v.msg]
+    needles = (needle,) if isinstance(needle, str) else tuple(needle)
+    hits = [v for v in sub.violations if any(n_ in v.key or n_ in v.msg for n_ in needles)]
     for v in sub.violations:
         if v in hits or v.rule == 'UNDECIDABLE': R.violation(v.key, v.rule, v.msg, v.loc, v.detail)
     R.obligations += 1; R.discharged += 0 if hits else 1
@@ -315,6 +316,9 @@ def check_C05(F, tier, t0):
             R.violation('%s / P / %s on the comparison constant' % (s_.fn, s_.what), 'P', 'the evaluator computes on the comparison constant with %s: for a constant near the integer limits the offset of a strict comparison overflows (panic in debug, a wrapped bound in release)' % s_.what, s_.loc)
     guarded(R, 'P evaluator arithmetic', no_overflow_in_evaluator)
     guarded(R, 'T counting operators', engine_t.rule_operator_tables, F, R, ('countop',))
+    # which parsed list / number ends up on which side of the comparison, and that every parsed operand is in its list
+    guarded(R, 'A3 (counting constructors)', a3_filtered, F, R, ('Countable', 'parse_formula_list', 'parse_countable'), 'A3:counting-constructors')
+    guarded(R, 'A2 (counting syntax)', a2_filtered, F, R, ('OpenSquare',), 'A2:counting-syntax')
     guarded(R, 'T tokens', engine_t.rule_tokens, F, R, {'Eq', 'ImpliesInv', 'Geq', 'Lt', 'Gt'})
     R.floor('functions', 12); R.floor('evaluator-counting-obligations', 5); R.floor('T:counting-operator-rows', 5)
     guarded(R, 'T regex', engine_t.rule_regex, F, R)      # names are read as written (tokenizer regex)
@@ -361,6 +365,10 @@ def check_C06(F, tier, t0):
     R.floor('functions', 2); R.floor('evaluator-fixed-point-obligations', 4); R.floor('T:fixed-point-rows', 2)
     guarded(R, 'T regex', engine_t.rule_regex, F, R)      # names are read as written (tokenizer regex)
     guarded(R, 'X5', engine_x.rule_X5, F, R)      # distinct names are distinct symbols
+    # the transformer is the *meaning of the body*: every construct the body may use (connectives, if-then-else, quantifiers, counting) must
+    # evaluate to its documented meaning, and the body must be read as written - the evaluation and front-end bundles of C07 / C09 / C10
+    front_end(R, F)
+    evaluation(R, E)
     return finish(R, 'other', tier, t0,
         'Decides the code-dependent premises of Kleene iteration: (a) fp\'s loop, by one symbolic iteration from an arbitrary state: the state starts as the argument, the '
         'loop exits only when t(s) is structurally s, otherwise the next state is t(s), and the value returned is the state t maps to itself; (b) gfp/nu start from true, '
